@@ -80,6 +80,8 @@ def run_datasets(R, datasets):
     meta = []
     for (ds, ops, strategy), (outs, closed, files, d), rep in zip(datasets, impl, reps):
         case = {k: ds[k] for k in ("grid", "cs", "sizes", "m", "s", "p", "ie", "de", "subset")}
+        case["omit"] = ds.get("omit", [])
+        case["huge"] = bool(ds.get("huge"))
         case.update({"ops": [list(o) for o in ops], "strategy": strategy})
         R.case(case, nontrivial=L.nontrivial(ds))
         R.count(f"subset:{ds['subset']}")
@@ -103,8 +105,12 @@ def run_datasets(R, datasets):
             if o[0] == "ok":
                 payload_of[L.ref_cmc(g, (x // cs, y // cs, z // cs))] = pl
         ids = sorted(payload_of)
-        all_ids = [L.ref_cmc(g, c) for c in itertools.product(*[range(k) for k in g])]
-        never = [c for c in all_ids if c not in payload_of]
+        if ds.get("huge"):
+            never = [L.ref_cmc(g, [rng.randrange(k) for k in g]) for _ in range(6)]
+            never = [c for c in never if c not in payload_of]
+        else:
+            all_ids = [L.ref_cmc(g, c) for c in itertools.product(*[range(k) for k in g])]
+            never = [c for c in all_ids if c not in payload_of]
         extra = rng.sample(never, min(len(never), 6))
         orc = L.Oracle()
         cfg = L.cfg_of(ds)
@@ -143,6 +149,12 @@ def run(R):
         strategy = rng.choice(["in memory", "on disk", None])
         datasets.append((ds, L.order_ops(ds, rng, order), strategy))
         R.count(f"order:{order}")
+    # grids whose identifiers need 54..64 bits (not exact doubles); deterministic set
+    for i in range(12 if quick else 60):
+        ds = L.gen_huge_dataset(rng, i)
+        datasets.append((ds, L.order_ops(ds, rng, ["sorted", "reversed", "random"][i % 3]),
+                         ["in memory", "on disk", None][i % 3]))
+        R.count("order:huge-grid")
     # all permutations of tiny chunk sets (one minishard, <= 4 or 5 entries)
     for _ in range(14 if quick else 80):
         k = rng.randrange(2, 5 if quick else 6)
@@ -205,6 +217,8 @@ def _replay_once(R, payload):
         run(R)
         return bool(R.violations or R.disagreements)
     ds = {k: case[k] for k in ("grid", "cs", "sizes", "m", "s", "p", "ie", "de", "subset")}
+    ds["omit"] = case.get("omit", [])
+    ds["huge"] = case.get("huge", False)
     ops = [tuple(o[:3]) + (bytes.fromhex(o[3][1:]) if isinstance(o[3], str) else bytes(o[3]),)
            for o in case["ops"]]
     cs = ds["cs"]
